@@ -747,7 +747,7 @@ class Operator(object):
                                       '`Operator.norm(estimate=True)` to '
                                       'obtain an estimate.')
         else:
-            norm = getattr(self, '__norm', None)
+            norm = getattr(self, '_Operator__norm', None)
             if norm is not None:
                 return norm
             else:
